@@ -762,6 +762,40 @@ pub fn run(cfg: &RunCfg, rep: &mut Report) {
         rest.truncate(max_ops.max(field_ops.len() + 5));
         ops.extend(rest);
 
+        // the updater's utxo checks, probed on input 0: it may only accept utxo data that is the
+        // output this input references and that the descriptor pays to
+        {
+            let prev = s.prev_txs[0].clone();
+            let good = s.prevouts[0].clone();
+            let mut wrong_amount = good.clone();
+            wrong_amount.value = Amount::from_sat(good.value.to_sat() / 2 + 1);
+            let mut wrong_spk = good.clone();
+            wrong_spk.script_pubkey = ScriptBuf::from_bytes(vec![0x51]);
+            let mut other_tx = prev.clone();
+            if let Some(t) = other_tx.as_mut() {
+                t.lock_time = absolute::LockTime::from_consensus(7);
+            }
+            let probes: Vec<(&str, Option<TxOut>, Option<Transaction>, bool)> = vec![
+                ("both forms, consistent", Some(good.clone()), prev.clone(), true),
+                ("witness_utxo with another amount than the referenced output", Some(wrong_amount), prev.clone(), false),
+                ("witness_utxo with another script than the referenced output", Some(wrong_spk.clone()), prev.clone(), false),
+                ("non_witness_utxo that is not the referenced transaction", None, other_tx, false),
+                ("witness_utxo the descriptor does not pay to", Some(wrong_spk), None, false),
+                ("no utxo at all", None, None, false),
+            ];
+            for (what, wu, nwu, want_ok) in probes {
+                let mut p = Psbt::from_unsigned_tx(s.tx.clone()).expect("unsigned tx");
+                p.inputs[0].witness_utxo = wu;
+                p.inputs[0].non_witness_utxo = nwu;
+                rep.eval();
+                let d = &s.inputs[0].desc;
+                match guarded(std::panic::AssertUnwindSafe(|| p.update_input_with_descriptor(0, d).is_ok())) {
+                    Ok(ok) if ok == want_ok => rep.count("updater-utxo-check-exact"),
+                    Ok(ok) => rep.violation(i, format!("C14:update-utxo-check:{}", what.split(' ').take(4).collect::<Vec<_>>().join("-")), format!("update_input_with_descriptor with {} returned {} for {}", what, if ok { "Ok" } else { "Err" }, s.inputs[0].case.desc)),
+                    Err(m) => rep.violation(i, format!("C14:panic:update_input:{}", norm_loc(&last_panic_loc())), format!("{} with {}", m, what)),
+                }
+            }
+        }
         let mut psbt = fresh_psbt(&s);
         let mut hist: Vec<(Op, String)> = vec![];
         let mut ok_fin = 0;
